@@ -19,11 +19,11 @@ fn div_rem_word_def(hi: u64, lo: u64, divisor: u64) -> (u64, u64) {
 
 // Contract (C12): bits(a) = number of significant bits of the 2-digit value (0 for zero) =
 // 128 - leading_zeros; full_shl(v, s) for s < 64 returns the exact 192-bit value v * 2^s as (low two
-// digits, carry digit); shl_word = its low digits; full_shr((digits, carry), s) = floor(value / 2^s)
-// truncated to two digits, and full_shr(full_shl(v, s), s) = v.
+// digits, carry digit); shl_word = its low digits; full_shr((digits, 0), s) = floor(value / 2^s) - precondition
+// from the only call site: the extra digit is 0 (full_shr drops it) - and then full_shr(full_shl(v, s), s) = v.
 // @unit name=div_bits_shifts props=C12 kind=bounded bound=N=2_digits fns=bits,full_shl,shl_word,full_shr tier=thorough was_quick=1 confirmed=0
 #[kani::proof]
-#[kani::unwind(4)]
+#[kani::unwind(20)]
 fn div_bits_shifts() {
     let v: u128 = kani::any();
     let d = dig(v);
@@ -35,11 +35,13 @@ fn div_bits_shifts() {
     assert!(val(sh.0) == v << s);
     assert!(sh.1 as u128 == if s == 0 { 0 } else { v >> (128 - s) });
     assert!(shl_word(&d, s) == sh.0);
-    assert!(full_shr(&sh, s) == d);
-    let c: u64 = kani::any();
-    let w = ArrayPlusOne(d, c);
+    // full_shr ignores the extra (carry) digit: its call-site precondition in div_rem_knuth is that this
+    // digit is 0 (the remainder is smaller than the normalized divisor).  Under that precondition it is the
+    // exact right shift and the inverse of full_shl.
+    if sh.1 == 0 { assert!(full_shr(&sh, s) == d); }
+    let w = ArrayPlusOne(d, 0);
     let r = full_shr(&w, s);
-    assert!(val(r) == if s == 0 { v } else { (v >> s) | ((c as u128) << (128 - s)) });
+    assert!(val(r) == v >> s);
     kani::cover!(s > 0 && sh.1 != 0);
     kani::cover!(s == 0);
     kani::cover!(v == 0);
@@ -50,9 +52,9 @@ fn div_bits_shifts() {
 // full_mul_u64::<1>([a], b) = exact 128-bit product as (low digit, carry digit); full_mul_u64::<2>(a, b)
 // = exact 192-bit product a * b as (low two digits, carry digit) - spec by positional arithmetic on the
 // two partial products in u128.
-// @unit name=div_addsub_mul props=C12 kind=bounded bound=N<=2_digits fns=add_assign,sub_assign,binop_slice,full_mul_u64 timeout=900 tier=thorough was_quick=1 confirmed=0
+// @unit name=div_addsub_mul props=C12 kind=bounded bound=N<=2_digits fns=add_assign,sub_assign,binop_slice,full_mul_u64 timeout=900
 #[kani::proof]
-#[kani::unwind(4)]
+#[kani::unwind(20)]
 fn div_addsub_mul() {
     let (x, y): (u128, u128) = (kani::any(), kani::any());
     let (mut a, b) = (dig(x), dig(y));
@@ -75,28 +77,27 @@ fn div_addsub_mul() {
     kani::cover!(m2.1 != 0);
 }
 
-// Contract (C12), bounded: div_rem::<2>(n, d) for d != 0.  (a) n < d (fewer significant bits or not):
-// whenever bits(n) < bits(d) the result is (0, n) without dividing.  (b) small divisors (d < 2^32) and
-// n < 2^64: (q, r) with q * d + r = n and r < d (exact u128 arithmetic) - the unique quotient and
-// remainder.  Stub: div_rem_word -> div_rem_word_def.
-// @unit name=div_rem_n2_small props=C12 kind=bounded bound=N=2_n<2^64_d<2^32 fns=div_rem,div_rem_small timeout=900 tier=thorough was_quick=1 confirmed=0
+// Contract (C12): div_rem dispatch and the one-digit path.  (a) div_rem::<2>(n, d), d != 0: whenever n has
+// fewer significant bits than d the result is (0, n) without dividing.  (b) div_rem::<1>([n], [d]) for all
+// n and all d != 0 (the generic div_rem_small loop at one digit): (q, r) with q * d + r = n and r < d, the
+// product formed exactly in u128 - the unique quotient and remainder.  Stub: div_rem_word -> div_rem_word_def.
+// @unit name=div_rem_small_n1 props=C12 kind=bounded bound=N=1_digit_(all_values)_and_N=2_dispatch fns=div_rem,div_rem_small,bits timeout=1500 tier=thorough was_quick=1 confirmed=0
 #[kani::proof]
-#[kani::unwind(4)]
+#[kani::unwind(20)]
 #[kani::stub(div_rem_word, div_rem_word_def)]
-fn div_rem_n2_small() {
+fn div_rem_small_n1() {
     let (n, d): (u128, u128) = (kani::any(), kani::any());
     kani::assume(d != 0);
     if (128 - n.leading_zeros()) < (128 - d.leading_zeros()) {
         let (q, r) = div_rem(&dig(n), &dig(d));
         assert!(val(q) == 0 && val(r) == n);
-    } else {
-        kani::assume(n <= u64::MAX as u128 && d <= u32::MAX as u128);
-        let (q, r) = div_rem(&dig(n), &dig(d));
-        let (q, r) = (val(q), val(r));
-        assert!(q <= u64::MAX as u128 && r < d);
-        assert!(q * d + r == n);
-        kani::cover!(q > 1 && r > 0);
     }
+    let (n1, d1): (u64, u64) = (kani::any(), kani::any());
+    kani::assume(d1 != 0);
+    let (q, r) = div_rem(&[n1], &[d1]);
+    assert!(r[0] < d1 && q[0] as u128 * d1 as u128 + r[0] as u128 == n1 as u128);
+    kani::cover!(q[0] > 1 && r[0] > 0);
+    kani::cover!(q[0] == 0 && n1 > 0);
     kani::cover!(n < d && n > 0);
 }
 
@@ -125,34 +126,12 @@ fn lt3(a: &[u64; 3], b: &[u64; 3]) -> bool {
     if a[1] != b[1] { return a[1] < b[1]; }
     a[0] < b[0]
 }
-// Contract (C12), bounded: Knuth algorithm D with a THREE-digit divisor (the smallest shape in which
-// the quotient estimate can still be one too large after the two-digit refinement, so the add-back
-// branch is live): div_rem::<3>(n, d) for d >= 2^128 and n >= d returns a one-digit q and r < d with
-// q * d + r = n, the product and sum formed by schoolbook arithmetic on the digits (u128 partials).
-// Stub: div_rem_word -> div_rem_word_def.
-// @unit name=div_rem_n3_knuth props=C12 kind=bounded bound=N=3_(three-digit_divisor_one_quotient_digit) fns=div_rem,div_rem_knuth,full_mul_u64,sub_assign,add_assign,full_shl,full_shr tier=thorough mem=6 timeout=1500 confirmed=0
-#[kani::proof]
-#[kani::unwind(6)]
-#[kani::stub(div_rem_word, div_rem_word_def)]
-fn div_rem_n3_knuth() {
-    let (n, d): ([u64; 3], [u64; 3]) = (kani::any(), kani::any());
-    kani::assume(d[2] != 0 && !lt3(&n, &d));
-    let (q, r) = div_rem(&n, &d);
-    assert!(q[1] == 0 && q[2] == 0 && lt3(&r, &d));
-    // q0 * d + r, schoolbook
-    let t0 = q[0] as u128 * d[0] as u128 + r[0] as u128;
-    let t1 = q[0] as u128 * d[1] as u128 + r[1] as u128 + (t0 >> 64);
-    let t2 = q[0] as u128 * d[2] as u128 + r[2] as u128 + (t1 >> 64);
-    assert!(t0 as u64 == n[0] && t1 as u64 == n[1] && t2 as u64 == n[2] && t2 >> 64 == 0);
-    kani::cover!(q[0] > 1 && (r[0] != 0 || r[1] != 0));
-    kani::cover!(q[0] == u64::MAX - 1 && d[2] >> 63 == 1 && d[1] == 0); // the add-back family
-}
-
-// Contract (C12), bounded: as div_rem_n3_knuth, restricted to NORMALIZED divisors (top bit of the top
-// digit set, so the normalization shift is 0): this is the shape in which the add-back branch fires
+// Contract (C12), bounded: Knuth algorithm D at N = 3 with a three-digit NORMALIZED divisor (top bit of
+// the top digit set, so the normalization shift is 0; three digits is the smallest shape in which the
+// estimate can still be one too large after the two-digit refinement): the add-back branch fires here
 // (e.g. n = [0, B/2, B/2 - 1], d = [1, 0, B/2]); q * d + r = n and r < d by schoolbook digit arithmetic.
 // Stub: div_rem_word -> div_rem_word_def.
-// @unit name=div_rem_n3_knuth_norm props=C12 kind=bounded bound=N=3_normalized_three-digit_divisor_one_quotient_digit fns=div_rem,div_rem_knuth,full_mul_u64,sub_assign,add_assign tier=thorough mem=6 timeout=1500
+// @unit name=div_rem_n3_knuth_norm props=C12 kind=bounded bound=N=3_normalized_three-digit_divisor_one_quotient_digit fns=div_rem,div_rem_knuth,full_mul_u64,sub_assign,add_assign tier=thorough mem=6 timeout=1500 confirmed=0
 #[kani::proof]
 #[kani::unwind(6)]
 #[kani::stub(div_rem_word, div_rem_word_def)]
@@ -174,17 +153,19 @@ fn div_rem_n3_knuth_norm() {
 // q = B - 2 with r = (B/2) B^2 - B + 2.  Second instance with a two-digit divisor at N = 3, checked by
 // the identity q * d + r = n, r < d on the digits.
 // Stub: div_rem_word -> div_rem_word_def.
-// @unit name=div_rem_addback_pinned props=C12 kind=bounded bound=concrete_operands fns=div_rem,div_rem_knuth,add_assign timeout=900
+// @unit name=div_rem_addback_pinned props=C12 kind=bounded bound=concrete_operands fns=div_rem,div_rem_knuth,add_assign timeout=900 tier=thorough was_quick=1 confirmed=0
 #[kani::proof]
-#[kani::unwind(8)]
+#[kani::unwind(34)]
 #[kani::stub(div_rem_word, div_rem_word_def)]
 fn div_rem_addback_pinned() {
     const H: u64 = 1 << 63;
     // N = 4: n = (B/2-1) B^3 + (B/2) B^2, d = (B/2) B^2 + 1: q = B - 2, r = (B/2) B^2 - B + 2
-    let (q, r) = div_rem(&[0, 0, H, H - 1], &[1, 0, H, 0]);
+    let opaque4 = |x: [u64; 4]| { let y: [u64; 4] = kani::any(); kani::assume(y == x); y };
+    let opaque3 = |x: [u64; 3]| { let y: [u64; 3] = kani::any(); kani::assume(y == x); y };
+    let (q, r) = div_rem(&opaque4([0, 0, H, H - 1]), &opaque4([1, 0, H, 0]));
     assert!(q == [u64::MAX - 1, 0, 0, 0] && r == [2, u64::MAX, H - 1, 0]);
     // N = 3 with the two-digit divisor d = (B/2) B + 1 and n = (B/2 - 1) B^2 + (B/2) B
-    let (q3, r3) = div_rem(&[0, H, H - 1], &[1, H, 0]);
+    let (q3, r3) = div_rem(&opaque3([0, H, H - 1]), &opaque3([1, H, 0]));
     assert!(r3[1] < H || (r3[1] == H && r3[0] < 1));
     let t0 = q3[0] as u128 * 1 + r3[0] as u128;
     let t1 = q3[0] as u128 * H as u128 + r3[1] as u128 + (t0 >> 64);
